@@ -16,6 +16,9 @@ for frag in sorted(glob.glob("harness/*/checks.json")):
             fl = sorted(set(fl.get("quick", []) + fl.get("thorough", [])))
         for f in fl:
             jobs.add((ws, c["bin"], f, c.get("features")))
+        for part in c.get("also", []):
+            for f in part.get("flavours", ["P"]):
+                jobs.add((os.path.join("harness", part["ws"]), part["bin"], f, part.get("features")))
 procs = []
 for ws, b, f, feat in sorted(jobs):
     env = dict(os.environ)
